@@ -30,6 +30,69 @@ PARSERS = [
 ]
 
 
+def short_read_is_not_eof(chk: Check) -> None:
+    """When pyjelly reads the input itself in chunks, a read that returns fewer bytes than asked for must not be taken for
+    the end of the input: after a length test decided 'short', another read on the source must follow before the bytes
+    read so far are consumed.  Entry points: the rdflib plugin parser (Graph.parse) and the public parsers."""
+    prog = chk.program
+    rule = "C09.TAINT.short-read-is-not-eof"
+    chk.rule(rule, "a short (non-empty) read is never treated as end of input: after a length test on a possibly-short chunk decided 'short', the source is read again before the data is used", floor=8)
+    from .. import models_rdflib as R
+    from ..values import Atom, sstr
+
+    entries = [("rdflib plugin RDFLibJellyParser.parse", "plugin")] + [(f"{integ}.{parser}", (mod, parser)) for integ, mod, parser in PARSERS[:1] + PARSERS[3:4]]
+    for sname, skw in SOURCES:
+        for delim in (True, False):
+            for ename, entry in entries:
+
+                def scenario(it: Interp) -> Any:
+                    k = K.Kit(it)
+                    w = K.Wire(it)
+                    frames = [w.frame([w.options_row(1, 1)] + w.statement_rows(1, 1, "a"))]
+                    if delim:
+                        frames.append(w.frame(w.statement_rows(1, 1, "b")))
+                    inp = K.models.make_input(AIter(iter(frames), "frames"), b"\x20\x0a\x05" if delim else b"\x0a\x05\x0a", **skw)
+                    if entry == "plugin":
+                        target = R.new_graph(it, R.uri(sstr(Atom("target-graph", nosep=True))))
+                        k.method(k.new(K.RP, "RDFLibJellyParser"), "parse", ExtObj("rdflib.InputSource", {"stream": inp}), target)
+                        return len(target.attrs["data"].items)
+                    return len(it.drain(k.call(k.get(entry[0], entry[1]), inp)))
+
+                inst = f"{sname} | delimited={delim} | {ename}"
+                for it, out in explore(prog, scenario, max_paths=16, generic_strings=True):
+                    chk.paths += 1
+                    # a length test on a possibly-short chunk that came out as 'short' ...
+                    bad = None
+                    evs = it.events
+                    for i, e in enumerate(evs):
+                        if e["kind"] != "decision":
+                            continue
+                        key = e["key"]
+                        while isinstance(key, tuple) and len(key) == 2 and key[0] in ("truth", "not"):
+                            if key[0] == "not":
+                                e = dict(e, value=not e["value"])
+                            key = key[1]
+                        op = key[1] if isinstance(key, tuple) and len(key) > 1 and key[0] == "cmp" else None
+                        short = (op in ("Lt", "LtE", "NotEq") and e["value"]) or (op in ("Gt", "GtE", "Eq") and not e["value"])
+                        if not short:
+                            continue
+                        # ... must be followed by another read before the chunks are used
+                        for later in evs[i + 1 :]:
+                            if later["kind"] == "io" and later["method"] in ("read", "read1", "readinto", "peek"):
+                                break
+                            if later["kind"] in ("consume_chunks", "parse_input") or (later["kind"] == "io" and later["method"] == "parse"):
+                                bad = (e, later)
+                                break
+                        if bad:
+                            break
+                    if bad:
+                        chk.fail(rule, inst, f"{bad[0]['site'][0]}.{bad[0]['site'][2]}:short-read-ends-input", f"in {bad[0]['site'][2]} a read that returned fewer bytes than requested ends the reading loop and the bytes read so far are used as the whole input: on a {sname} the rest of the stream is lost")
+                    elif out[0] != "ok":
+                        chk.ok(rule, inst, {"raises": it.exc_class_name(out[1].exc)}, nontrivial=False)
+                    else:
+                        chk.ok(rule, inst, {"items": out[1]})
+
+
 def short_reads(chk: Check) -> None:
     """The environment delivers fewer bytes than asked to the first read that is allowed to be short (and, separately,
     hands over a source that is not positioned at 0): the frames parsed must be the ones parsed with full reads."""
@@ -168,3 +231,4 @@ def check(chk: Check) -> None:
                         else:
                             chk.ok("C09.TABLE.frame-reader", inst, None)
     chk.part("short-reads", lambda: short_reads(chk))
+    chk.part("short-read-is-not-eof", lambda: short_read_is_not_eof(chk))
